@@ -4,12 +4,12 @@ from .defs import Item, Variant, Field, pattern, render_item, generics_decl, rus
 
 # type parameter G<i> is instantiated with u8, const N<i> with 3, lifetimes with 'static
 def inst(it: Item, name=None) -> str:
-    args = ["'static"] * it.lifetimes + ["u8"] * it.tparams + ["3"] * it.cparams
+    args = ["'static"] * it.lifetimes + [getattr(it, "targ", None) or "u8"] * it.tparams + ["3"] * it.cparams
     return (name or it.ident) + ("<%s>" % ", ".join(args) if args else "")
 
 
 def turbofish(it: Item, name=None) -> str:
-    args = ["u8"] * it.tparams + ["3"] * it.cparams     # lifetime arguments are inferred
+    args = [getattr(it, "targ", None) or "u8"] * it.tparams + ["3"] * it.cparams     # lifetime arguments are inferred
     return (name or it.ident) + ("::<%s>" % ", ".join(args) if args else "")
 
 
@@ -29,7 +29,7 @@ SAMPLE = {
     "&'l0 str": ('"lt"', "lt"),
     "Box<str>": ('Box::<str>::from("boxed")', "boxed"), "Wrap": ('Wrap(String::from("wr"))', "wr"),
     "f32": ("1.5f32", "1.5"),
-    "Tick": ("Tick(5)", None), "Boom": ("Boom", None),      # hp.rs: Default counts constructions; an inherent `default()` returns another value
+    "Tick": ("Tick(5)", None), "Boom": ("Boom", None), "std::marker::PhantomData<G0>": ("std::marker::PhantomData", None),      # hp.rs: Default counts constructions; an inherent `default()` returns another value
     # types that are NOT Send / Sync, and a few structured ones (none of them is Display)
     "std::rc::Rc<u8>": ("std::rc::Rc::new(9u8)", None), "std::cell::Cell<u8>": ("std::cell::Cell::new(9u8)", None),
     "()": ("()", None), "[u8; 3]": ("[1u8, 2, 3]", None), "(u8, bool)": ("(5u8, true)", None),
